@@ -179,4 +179,235 @@ theorem keyRows_ok (key : Nat) : ∀ (names : List Nat) (os : List Obj) (ss : Li
   | _ :: _, _ :: _, [], h => by simp [AllOK] at h
 
 
+theorem mem_append3 {α} {a b c d : List α} {x : α} : x ∈ a ++ b ++ c ++ d ↔ x ∈ a ∨ x ∈ b ∨ x ∈ c ∨ x ∈ d := by
+  simp
+
+mutual
+  theorem evalE_ok : ∀ (s : Src) (st : St), Good st →
+      Good (evalE false st s).1 ∧ SetEq (findUps (evalE false st s).2.1) (producers s) ∧
+        RowsOK (argSpecs s) (evalE false st s).2.2
+    | .lit _, st, g => by
+      simp only [evalE, findUps, producers, argSpecs]
+      exact ⟨g, SetEq.refl [], rowsOK_nil _⟩
+    | .cont items, st, g => by
+      obtain ⟨g1, a1, r1⟩ := evalL_ok items st g
+      simp only [evalE, findUps, producers, argSpecs]
+      exact ⟨g1, allOK_findUpsL a1, r1⟩
+    | .call key prov args kwnames kwargs defnames defs, st, g => by
+      simp only [evalE]
+      split
+      · rename_i o hl
+        exact ⟨g, g _ o hl, rowsOK_nil _⟩
+      · obtain ⟨g1, a1, r1⟩ := evalL_ok args st g
+        obtain ⟨g2, a2, r2⟩ := evalL_ok kwargs _ g1
+        obtain ⟨_, a3, r3⟩ := evalL_ok defs [] good_nil
+        have ho : SetEq (findUps (Obj.task (if prov = true then some key else none)))
+            (producers (.call key prov args kwnames kwargs defnames defs)) := by
+          cases prov <;> simp [findUps, producers] <;> exact SetEq.refl _
+        refine ⟨good_cons g2 ho, ho, ?_⟩
+        simp only [argSpecs, Bool.false_eq_true, if_false]
+        refine RowsOK.append (RowsOK.append (RowsOK.append ?_ ?_) ?_) ?_
+        · exact r1.mono (fun q hq => mem_append3.2 (.inl hq))
+        · exact r2.mono (fun q hq => mem_append3.2 (.inr (.inl hq)))
+        · exact r3.mono (fun q hq => mem_append3.2 (.inr (.inr (.inl hq))))
+        · cases prov
+          · exact rowsOK_nil _
+          · simp only [if_true]
+            refine RowsOK.append (RowsOK.append ?_ ?_) ?_
+            · exact (posRows_ok a1).mono (fun q hq => mem_append3.2 (.inr (.inr (.inr (by simp [hq])))))
+            · exact (keyRows_ok key kwnames _ _ a2).mono (fun q hq => mem_append3.2 (.inr (.inr (.inr (by simp [hq])))))
+            · exact (keyRows_ok key defnames _ _ a3).mono (fun q hq => mem_append3.2 (.inr (.inr (.inr (by simp [hq])))))
+    | .op args, st, g => by
+      simp only [evalE]
+      split
+      · rename_i o hl
+        exact ⟨g, g _ o hl, rowsOK_nil _⟩
+      · obtain ⟨g1, a1, r1⟩ := evalL_ok args st g
+        have ho : SetEq (findUps (Obj.other (evalL false st args).2.1)) (producers (.op args)) := by
+          simp only [findUps, producers]; exact allOK_findUpsL a1
+        exact ⟨good_cons g1 ho, ho, by simpa [argSpecs] using r1⟩
+    | .cond c taken a b, st, g => by
+      simp only [evalE]
+      split
+      · rename_i o hl
+        simp only [Bool.false_eq_true, if_false]
+        exact ⟨g, g _ o hl, rowsOK_nil _⟩
+      · obtain ⟨g1, u1, r1⟩ := evalE_ok c st g
+        cases taken
+        · obtain ⟨g2, u2, r2⟩ := evalE_ok b _ g1
+          have ho : SetEq (findUps (Obj.other [(evalE false st c).2.1, unev a, (evalE false (evalE false st c).1 b).2.1]))
+              (producers (.cond c false a b)) := by
+            simp only [findUps, findUpsL, producers, findUps_unev, nil_append, append_nil, Bool.false_eq_true, if_false]
+            exact SetEq.append u1 u2
+          refine ⟨good_cons g2 ho, ho, ?_⟩
+          simp only [argSpecs, Bool.false_eq_true, if_false]
+          exact RowsOK.append (r1.mono (fun q hq => mem_append.2 (.inl hq))) (r2.mono (fun q hq => mem_append.2 (.inr hq)))
+        · obtain ⟨g2, u2, r2⟩ := evalE_ok a _ g1
+          have ho : SetEq (findUps (Obj.other [(evalE false st c).2.1, (evalE false (evalE false st c).1 a).2.1, unev b]))
+              (producers (.cond c true a b)) := by
+            simp only [findUps, findUpsL, producers, findUps_unev, append_nil, if_true]
+            exact SetEq.append u1 u2
+          refine ⟨good_cons g2 ho, ho, ?_⟩
+          simp only [argSpecs, if_true]
+          exact RowsOK.append (r1.mono (fun q hq => mem_append.2 (.inl hq))) (r2.mono (fun q hq => mem_append.2 (.inr hq)))
+    | .catchE e failed recKey, st, g => by
+      simp only [evalE]
+      split
+      · rename_i o hl
+        simp only [Bool.false_eq_true, if_false]
+        exact ⟨g, g _ o hl, rowsOK_nil _⟩
+      · obtain ⟨g1, u1, r1⟩ := evalE_ok e st g
+        cases failed
+        · simp only [Bool.false_eq_true, if_false]
+          have ho : SetEq (findUps (Obj.other [(evalE false st e).2.1])) (producers (.catchE e false recKey)) := by
+            simp only [findUps, findUpsL, producers, append_nil, Bool.false_eq_true, if_false]; exact u1
+          exact ⟨good_cons g1 ho, ho, by simpa [argSpecs] using r1⟩
+        · simp only [if_true]
+          have ho : SetEq (findUps (Obj.other [Obj.task (some recKey)])) (producers (.catchE e true recKey)) := by
+            simp [findUps, findUpsL, producers]; exact SetEq.refl _
+          refine ⟨good_cons g1 ho, ho, ?_⟩
+          simp only [argSpecs, if_true]
+          refine RowsOK.append (r1.mono (fun q hq => mem_append.2 (.inl hq))) ?_
+          intro r hr
+          simp only [mem_singleton] at hr
+          subst hr
+          refine ⟨(recKey, .pos 0, producers e), by simp, rfl, rfl, ?_⟩
+          simp only [findUps, findUpsL, append_nil]; exact u1
+    | .tags v, st, g => by
+      simp only [evalE]
+      split
+      · rename_i o hl
+        simp only [Bool.false_eq_true, if_false]
+        exact ⟨g, g _ o hl, rowsOK_nil _⟩
+      · obtain ⟨g1, u1, r1⟩ := evalE_ok v st g
+        have ho : SetEq (findUps (Obj.other [(evalE false st v).2.1])) (producers (.tags v)) := by
+          simp only [findUps, findUpsL, producers, append_nil]; exact u1
+        exact ⟨good_cons g1 ho, ho, by simpa [argSpecs] using r1⟩
+  theorem evalL_ok : ∀ (ss : List Src) (st : St), Good st →
+      Good (evalL false st ss).1 ∧ AllOK (evalL false st ss).2.1 ss ∧ RowsOK (argSpecsL ss) (evalL false st ss).2.2
+    | [], st, g => by
+      simp only [evalL, AllOK, argSpecsL]
+      exact ⟨g, trivial, rowsOK_nil _⟩
+    | s :: ss, st, g => by
+      obtain ⟨g1, u1, r1⟩ := evalE_ok s st g
+      obtain ⟨g2, a2, r2⟩ := evalL_ok ss _ g1
+      simp only [evalL, AllOK, argSpecsL]
+      exact ⟨g2, ⟨u1, a2⟩, RowsOK.append (r1.mono (fun q hq => mem_append.2 (.inl hq))) (r2.mono (fun q hq => mem_append.2 (.inr hq)))⟩
+end
+
+
+/-- relational reading of `_find_arg_upstreams`: `Reach o k` — call node `k` is reachable from object `o`
+through containers and through `_upstreams` of non-task expressions -/
+inductive Reach : Obj → Nat → Prop
+  | task (k : Nat) : Reach (.task (some k)) k
+  | cont {items : List Obj} {o : Obj} {k : Nat} : o ∈ items → Reach o k → Reach (.cont items) k
+  | other {ups : List Obj} {o : Obj} {k : Nat} : o ∈ ups → Reach o k → Reach (.other ups) k
+
+mutual
+  theorem findUps_sound : ∀ (o : Obj) (k : Nat), k ∈ findUps o → Reach o k
+    | .val, k, h => by simp [findUps] at h
+    | .cont items, k, h => by
+      simp only [findUps] at h
+      obtain ⟨o, ho, hr⟩ := findUpsL_sound items k h
+      exact .cont ho hr
+    | .task c, k, h => by
+      cases c with
+      | none => simp [findUps] at h
+      | some c => simp [findUps] at h; subst h; exact .task _
+    | .other ups, k, h => by
+      simp only [findUps] at h
+      obtain ⟨o, ho, hr⟩ := findUpsL_sound ups k h
+      exact .other ho hr
+  theorem findUpsL_sound : ∀ (os : List Obj) (k : Nat), k ∈ findUpsL os → ∃ o ∈ os, Reach o k
+    | [], k, h => by simp [findUpsL] at h
+    | o :: os, k, h => by
+      simp only [findUpsL, mem_append] at h
+      rcases h with h | h
+      · exact ⟨o, by simp, findUps_sound o k h⟩
+      · obtain ⟨o', ho', hr⟩ := findUpsL_sound os k h
+        exact ⟨o', by simp [ho'], hr⟩
+end
+
+theorem mem_findUpsL {os : List Obj} {o : Obj} {k : Nat} (ho : o ∈ os) (hk : k ∈ findUps o) : k ∈ findUpsL os := by
+  induction os with
+  | nil => simp at ho
+  | cons x xs ih =>
+    simp only [findUpsL, mem_append]
+    rcases mem_cons.1 ho with rfl | h
+    · exact .inl hk
+    · exact .inr (ih h)
+
+theorem findUps_complete {o : Obj} {k : Nat} (h : Reach o k) : k ∈ findUps o := by
+  induction h with
+  | task k => simp [findUps]
+  | cont ho _ ih => simp only [findUps]; exact mem_findUpsL ho ih
+  | other ho _ ih => simp only [findUps]; exact mem_findUpsL ho ih
+
+/-! the code before the repairs agrees with the repaired code on expressions without scheduler tasks -/
+mutual
+  theorem legacy_same : ∀ (s : Src) (st : St), schedFree s = true →
+      (evalE true st s).1 = (evalE false st s).1 ∧ (evalE true st s).2.1 = (evalE false st s).2.1
+    | .lit _, st, _ => by simp [evalE]
+    | .cont items, st, h => by
+      simp only [schedFree] at h
+      have := legacy_sameL items st h
+      simp only [evalE]; exact ⟨this.1, by rw [this.2]⟩
+    | .call key prov args kwnames kwargs defnames defs, st, h => by
+      simp only [schedFree, Bool.and_eq_true] at h
+      have h1 := legacy_sameL args st h.1.1
+      have h2 := legacy_sameL kwargs (evalL false st args).1 h.1.2
+      simp only [evalE]
+      split
+      · exact ⟨rfl, rfl⟩
+      · simp only [h1.1, h2.1]; exact ⟨trivial, trivial⟩
+    | .op args, st, h => by
+      simp only [schedFree] at h
+      have h1 := legacy_sameL args st h
+      simp only [evalE]
+      split
+      · exact ⟨rfl, rfl⟩
+      · simp only [h1.1, h1.2]; exact ⟨trivial, trivial⟩
+    | .cond .., _, h => by simp [schedFree] at h
+    | .catchE .., _, h => by simp [schedFree] at h
+    | .tags _, _, h => by simp [schedFree] at h
+  theorem legacy_sameL : ∀ (ss : List Src) (st : St), schedFreeL ss = true →
+      (evalL true st ss).1 = (evalL false st ss).1 ∧ (evalL true st ss).2.1 = (evalL false st ss).2.1
+    | [], st, _ => by simp [evalL]
+    | s :: ss, st, h => by
+      simp only [schedFreeL, Bool.and_eq_true] at h
+      have h1 := legacy_same s st h.1
+      have h2 := legacy_sameL ss (evalE false st s).1 h.2
+      simp only [evalL, h1.1, h1.2, h2.1, h2.2]; exact ⟨trivial, trivial⟩
+end
+
+
+/-! completeness of the rows of one call -/
+theorem posRows_complete_aux (key : Nat) : ∀ (os : List Obj) (ss : List Src) (n : Nat), AllOK os ss →
+    ∀ q ∈ (ss.zipIdx n).map (fun p => ((key, Slot.pos p.2, producers p.1) : Nat × Slot × List Nat)),
+      ∃ r ∈ (os.zipIdx n).map (fun p => ({ call := key, slot := .pos p.2, ups := findUps p.1 } : Row)),
+        r.call = q.1 ∧ r.slot = q.2.1 ∧ SetEq r.ups q.2.2
+  | [], [], _, _, q, hq => by simp at hq
+  | o :: os, s :: ss, n, h, q, hq => by
+    simp only [zipIdx_cons, map_cons, mem_cons] at hq
+    rcases hq with rfl | hq
+    · exact ⟨{ call := key, slot := .pos n, ups := findUps o }, by simp, rfl, rfl, h.1⟩
+    · obtain ⟨r, hr, h1⟩ := posRows_complete_aux key os ss (n + 1) h.2 q hq
+      exact ⟨r, by simp only [zipIdx_cons, map_cons, mem_cons]; exact .inr hr, h1⟩
+  | [], _ :: _, _, h, _, _ => by simp [AllOK] at h
+  | _ :: _, [], _, h, _, _ => by simp [AllOK] at h
+
+theorem keyRows_complete (key : Nat) : ∀ (names : List Nat) (os : List Obj) (ss : List Src), AllOK os ss →
+    ∀ q ∈ keySpecs key names ss, ∃ r ∈ keyRows key names os, r.call = q.1 ∧ r.slot = q.2.1 ∧ SetEq r.ups q.2.2
+  | [], _, _, _ => by intro q hq; simp [keySpecs] at hq
+  | _ :: _, [], [], _ => by intro q hq; simp [keySpecs] at hq
+  | n :: ns, o :: os, s :: ss, h => by
+    intro q hq
+    simp only [keySpecs, zip_cons_cons, map_cons, mem_cons] at hq
+    rcases hq with rfl | hq
+    · exact ⟨{ call := key, slot := .key n, ups := findUps o }, by simp [keyRows], rfl, rfl, h.1⟩
+    · obtain ⟨r, hr, h1⟩ := keyRows_complete key ns os ss h.2 q hq
+      exact ⟨r, by simp only [keyRows, zip_cons_cons, map_cons, mem_cons]; exact .inr hr, h1⟩
+  | _ :: _, [], _ :: _, h => by simp [AllOK] at h
+  | _ :: _, _ :: _, [], h => by simp [AllOK] at h
+
 end RedunModel.Upstreams
